@@ -24,6 +24,8 @@
 //	                a decision for env.  Afterwards every worker handles its pending signal and asks for env.
 //	                ext order = the observed order of {clear, stress, signal}; obs m=<w's slots mid-reload>
 //	                r=<slot ids of worker 0>/<worker 1>/…
+//	feed <w> <env> <n>  worker w looks its sampler up as in `get` and asks every dynsampler behind it about n
+//	                traces (GetSampleRateMulti(key,1), keys k0 k1 k2 in turn): the shared rate-tracking state counts them
 //	cget <env> <k>  k fresh workers (empty caches) released by a barrier ask the real factory for the
 //	                sampler of key env at the same moment; obs r=<slot ids>/<slot ids>/… one list per worker.
 //	                While they run, Metrics.Register() yields and sleeps briefly (the creation path registers
@@ -33,12 +35,15 @@
 // s: per sampler slot the identity of the dynsampler instance behind the worker's sampler (small
 // integers in first-seen order, '-' = no dynsampler); k: the registry key that instance is stored
 // under right now ('x' = not in the registry any more); c: goal bookkeeping of the factory by
-// instance; g: GoalThroughputPerSec in force for every registered instance ('-' = not a throughput sampler).
+// instance; g: GoalThroughputPerSec in force for every registered instance ('-' = not a throughput sampler);
+// f: events every registered instance holds in its current counting window (sum of its per-key counters, read
+// from the dynsampler-go structs: currentCounts, or countList.AggregateCounts for the windowed sampler).
 package main
 
 import (
 	"errors"
 	"fmt"
+	"reflect"
 	"runtime"
 	"sort"
 	"strconv"
@@ -46,6 +51,7 @@ import (
 	"sync"
 	"sync/atomic"
 	"time"
+	"unsafe"
 
 	"github.com/honeycombio/refinery/collect"
 	"github.com/honeycombio/refinery/config"
@@ -627,6 +633,23 @@ func (comp) Gen(r *kit.Rng, maxLen int, tier string) kit.Case {
 			ops = append(ops, "peercb")
 			continue
 		}
+		if r.Chance(9) {
+			// traffic: a worker feeds its sampler; often another worker then builds its own sampler for the same key
+			w := r.Intn(workers)
+			e := kit.Enc(opEnvs[r.Intn(len(opEnvs))])
+			ops = append(ops, fmt.Sprintf("feed %d %s %d", w, e, 1+r.Intn(6)))
+			if workers > 1 && r.Chance(60) {
+				w2 := (w + 1 + r.Intn(workers-1)) % workers
+				if r.Chance(30) {
+					ops = append(ops, fmt.Sprintf("wreload %d", w2))
+				}
+				ops = append(ops, fmt.Sprintf("get %d %s", w2, e))
+				if r.Chance(40) {
+					ops = append(ops, fmt.Sprintf("feed %d %s %d", w2, e, 1+r.Intn(3)))
+				}
+			}
+			continue
+		}
 		if r.Chance(5) {
 			// a reload through the real InMemCollector.reloadConfigs
 			if r.Chance(60) {
@@ -809,6 +832,51 @@ func (r *runner) id(inst any) int {
 	return n
 }
 
+// countedEvents reads the rate-tracking state of a dynsampler: the events it has counted in its
+// current window, summed over keys.  The fields are unexported in dynsampler-go; they are read (under
+// the sampler's own lock) through reflect/unsafe, nothing is written.
+func countedEvents(inst any) (n int, ok bool) {
+	defer func() {
+		if recover() != nil {
+			n, ok = -1, true
+		}
+	}()
+	v := reflect.ValueOf(inst)
+	if v.Kind() != reflect.Ptr || v.IsNil() {
+		return 0, false
+	}
+	e := v.Elem()
+	if lk := e.FieldByName("lock"); lk.IsValid() && lk.Type() == reflect.TypeOf(sync.Mutex{}) {
+		mu := (*sync.Mutex)(unsafe.Pointer(lk.UnsafeAddr()))
+		mu.Lock()
+		defer mu.Unlock()
+	}
+	if f := e.FieldByName("currentCounts"); f.IsValid() && f.Kind() == reflect.Map {
+		sum := 0.0
+		it := f.MapRange()
+		for it.Next() {
+			if val := it.Value(); val.Kind() == reflect.Float64 {
+				sum += val.Float()
+			} else {
+				sum += float64(val.Int())
+			}
+		}
+		return int(sum), true
+	}
+	if f := e.FieldByName("countList"); f.IsValid() {
+		bl := *(*dynsampler.BlockList)(unsafe.Pointer(f.UnsafeAddr()))
+		if bl == nil {
+			return 0, true
+		}
+		sum := 0
+		for _, c := range bl.AggregateCounts(1<<62, 1<<62) { // every block, nothing dropped
+			sum += c
+		}
+		return sum, true
+	}
+	return 0, false
+}
+
 func goalOf(inst any) (int, bool) {
 	switch t := inst.(type) {
 	case *dynsampler.TotalThroughput:
@@ -861,10 +929,13 @@ func (r *runner) tail(slots []any) string {
 		id   int
 		text string
 	}
-	var g, c []row
+	var g, c, fe []row
 	for _, rk := range keys {
 		in := reg[rk]
 		id := r.id(in)
+		if n, ok := countedEvents(in); ok {
+			fe = append(fe, row{id, fmt.Sprintf("%d:%d", id, n)})
+		}
 		if gv, ok := goalOf(in); ok {
 			g = append(g, row{id, fmt.Sprintf("%d:%d", id, gv)})
 		} else {
@@ -889,7 +960,12 @@ func (r *runner) tail(slots []any) string {
 	for i := range c {
 		cs[i] = c[i].text
 	}
-	out := fmt.Sprintf("p=%d c=%s g=%s", pc, join(cs), join(gs))
+	sort.Slice(fe, func(i, j int) bool { return fe[i].id < fe[j].id })
+	fs := make([]string, len(fe))
+	for i := range fe {
+		fs[i] = fe[i].text
+	}
+	out := fmt.Sprintf("p=%d c=%s g=%s f=%s", pc, join(cs), join(gs), join(fs))
 	if slots != nil {
 		out = fmt.Sprintf("s=%s k=%s ", join(s), join(k)) + out
 	}
@@ -923,6 +999,31 @@ func (r *runner) slotIDs(s sample.Sampler) string {
 
 func (r *runner) Do(op []string) (string, bool) {
 	switch op[0] {
+	case "feed":
+		w, _ := strconv.Atoi(op[1])
+		env := kit.Dec(op[2])
+		n, _ := strconv.Atoi(op[3])
+		if w < 0 || w >= len(r.workers) {
+			return "bad-op", true
+		}
+		if _, found := r.workers[w][env]; !found {
+			if c, _ := r.mock.GetSamplerConfigForDestName(env); c == nil {
+				return "exit", true
+			}
+		}
+		sm := r.workerGet(w, env)
+		if sm == nil {
+			return "nil-sampler", true
+		}
+		insts := sample.VerifSamplerregInstances(sm)
+		for _, in := range insts {
+			if ds, ok := in.(dynsampler.Sampler); ok && in != nil {
+				for i := 0; i < n; i++ {
+					ds.GetSampleRateMulti(fmt.Sprintf("k%d", i%3), 1)
+				}
+			}
+		}
+		return r.tail(insts), true
 	case "peerset":
 		n, _ := strconv.Atoi(op[1])
 		r.peers.set(n, false)
